@@ -78,7 +78,7 @@ class PathCtx:
     def feasible(self, cond):
         if self._solver is None:
             self._solver = z3.Solver()
-            self._solver.set("timeout", 1500)
+            self._solver.set("timeout", 400)
             for h in self.hyps:
                 self._solver.add(h)
             for c, _ in self.pc:
@@ -251,7 +251,7 @@ class SV:
     """symbolic number.  .isint says whether Python would see an int (True) or a float (False)."""
 
     __slots__ = ("t", "ang")
-    __array_priority__ = 1000
+    __array_ufunc__ = None  # numpy defers: ndarray <op> SV -> SV.__r<op>__ -> broadcast by hand below
     __hash__ = None
 
     def __init__(self, t, ang=None):
@@ -268,7 +268,7 @@ class SV:
     # arithmetic
     def _bin(self, o, f, swap=False):
         if not is_num(o):
-            return NotImplemented
+            return _arr_bin(self, o, f, swap)
         a, b, _ = _coerce(o, self) if swap else _coerce(self, o)
         return SV(f(a, b))
 
@@ -298,7 +298,7 @@ class SV:
 
     def __truediv__(self, o):
         if not is_num(o):
-            return NotImplemented
+            return _arr_bin(self, o, lambda a, b: real(a) / real(b), False)
         a, b = real(to_z3(self)), real(to_z3(o))
         _div_guard(b)
         r = SV(a / b)
@@ -308,7 +308,8 @@ class SV:
 
     def __rtruediv__(self, o):
         if not is_num(o):
-            return NotImplemented
+            _div_guard(real(self.t))
+            return _arr_bin(self, o, lambda a, b: real(a) / real(b), True)
         a, b = real(to_z3(o)), real(to_z3(self))
         _div_guard(b)
         return SV(a / b)
@@ -362,7 +363,18 @@ class SV:
         return self
 
     def __abs__(self):
-        return SV(z3.If(self.t >= 0, self.t, -self.t))
+        c = CUR[0]
+        if c is None or self.isint:
+            return SV(z3.If(self.t >= 0, self.t, -self.t))
+        # |x| as a fresh non-negative number a with a^2 = x^2 (gives the polynomial back ends a square rule)
+        memo = c.__dict__.setdefault("_abs", {})
+        t = z3.simplify(self.t)
+        k = t.sexpr()
+        if k not in memo:
+            a = c.fresh("abs")
+            c.axiom("abs(x)=a: a>=0, a*a=x*x, a=x or a=-x", z3.And(a >= 0, a * a == t * t, z3.Or(a == t, a == -t), a == z3.If(t >= 0, t, -t)))
+            memo[k] = a
+        return SV(memo[k])
 
     # comparisons
     def _cmp(self, o, f):
@@ -470,6 +482,22 @@ class SV:
         return self
 
 
+def _arr_bin(s, o, f, swap):
+    """SV <op> numpy array: element-wise"""
+    try:
+        import numpy as np
+    except ImportError:
+        return NotImplemented
+    if not isinstance(o, np.ndarray):
+        return NotImplemented
+    out = np.empty(o.shape, dtype=object)
+    for i in np.ndindex(o.shape):
+        a, b, _ = _coerce(o[i], s) if swap else _coerce(s, o[i])
+        out[i] = SV(f(a, b))
+    from .models.npm import OA
+    return out.view(OA)
+
+
 def _ang_add(a, b, r, sign):
     if r is NotImplemented:
         return r
@@ -567,12 +595,37 @@ def ite(c, a, b):
     return SV(z3.If(c, ta, tb))
 
 
+def _entailed(cond):
+    """True when the current path's facts entail cond (cheap check; False also when undecided)"""
+    c = CUR[0]
+    if c is None:
+        return False
+    try:
+        return not c.feasible(z3.Not(cond.t if isinstance(cond, SB) else cond))
+    except Exception:
+        return False
+
+
 def smin(a, b):
-    return ite(a <= b, a, b) if (isinstance(a, SV) or isinstance(b, SV)) else min(a, b)
+    if not (isinstance(a, SV) or isinstance(b, SV)):
+        return min(a, b)
+    le = a <= b
+    if _entailed(le):
+        return a if isinstance(a, SV) else SV(real(to_z3(a)))
+    if _entailed(b <= a):
+        return b if isinstance(b, SV) else SV(real(to_z3(b)))
+    return ite(le, a, b)
 
 
 def smax(a, b):
-    return ite(a >= b, a, b) if (isinstance(a, SV) or isinstance(b, SV)) else max(a, b)
+    if not (isinstance(a, SV) or isinstance(b, SV)):
+        return max(a, b)
+    ge = a >= b
+    if _entailed(ge):
+        return a if isinstance(a, SV) else SV(real(to_z3(a)))
+    if _entailed(b >= a):
+        return b if isinstance(b, SV) else SV(real(to_z3(b)))
+    return ite(ge, a, b)
 
 
 # ---------------------------------------------------------------------------------------------------------
